@@ -17,6 +17,11 @@ Calls ==
   CASE Group = "str1" -> {Call(f, <<s>>) : f \in {"trim_left", "trim_right", "trim", "chars", "len", "lines"}, s \in Strs(MaxLen)}
     [] Group = "str2" -> {Call(f, <<s, n>>) : f \in {"starts_with", "ends_with", "contains", "index_of", "split", "split_once", "strip_prefix", "strip_suffix"},
                                                s \in Strs(MaxLen), n \in Needles}
+    [] Group = "overlap" -> \* longer strings over two letters: needles that overlap themselves and their own prefixes
+         LET S2(n) == UNION {[1..k -> {"a", "b"}] : k \in 0..n} IN
+         {Call(f, <<s, n>>) : f \in {"contains", "index_of", "split", "split_once", "starts_with", "ends_with", "strip_prefix", "strip_suffix"},
+                              s \in S2(MaxLen + 3), n \in S2(3)}
+         \cup {Call("replace", <<s, b, a>>) : s \in S2(MaxLen + 2), b \in S2(2) \ {<<>>}, a \in {<<>>, <<"a">>, <<"b", "a">>}}
     [] Group = "replace" -> {Call("replace", <<s, b, a>>) : s \in Strs(MaxLen), b \in Needles, a \in Afters}
     [] Group = "substring" -> {Call("substring", <<s, i, j>>) : s \in Strs(MaxLen), i \in Ints, j \in Ints}
     [] Group = "join" -> {Call("join", <<sep, items>>) : sep \in Strs(1), items \in StrLists}
